@@ -389,10 +389,13 @@ fn get_and_validate_timeline_indices(
 
     if num_unique_timeline_indices != expected_unique_timeline_count as usize {
         let missing_string = {
-            (0..expected_unique_timeline_count).filter(|index| !ast_spans_by_timeline.contains_key(index))
-                .map(|index| index.to_string())
-                .collect::<Vec<_>>()
-                .join(", ")
+            // (only name the first few; an index like 2147483647 would otherwise produce billions)
+            let mut missing = (0..expected_unique_timeline_count).filter(|index| !ast_spans_by_timeline.contains_key(index));
+            let mut string = missing.by_ref().take(10).map(|index| index.to_string()).collect::<Vec<_>>().join(", ");
+            if missing.next().is_some() {
+                string.push_str(", ...");
+            }
+            string
         };
         let max_index_span = ast_spans_by_timeline.values().next_back().unwrap()[0];
         errors.set(emitter.emit(error!(
@@ -401,12 +404,11 @@ fn get_and_validate_timeline_indices(
         )));
     }
 
-    for timeline_index in 0..expected_unique_timeline_count {
-        match ast_spans_by_timeline.get(&timeline_index).map_or(0, |x| x.len()) {
-            0 => {},  // already handled by "missing timeline" check above
+    for (&timeline_index, ast_spans) in &ast_spans_by_timeline {
+        match ast_spans.len() {
+            0 => {},  // (missing indices are handled by the "missing timeline" check above)
             1 => {},
             _ => {
-                let ast_spans = &ast_spans_by_timeline[&timeline_index];
                 let first_span = ast_spans[0];
                 for &redefinition_span in &ast_spans[1..] {
                     errors.set(emitter.emit(error!(
